@@ -211,8 +211,13 @@ def format_rule(F, G, rep):
         fields, _ = L.ctor_fields(nb["tir"]["value"], None)
         for name, e in fields:
             if name == "hasher":
-                e = strip(e)
-                ok = e.get("k") == "MethodCall" and e["method"] in ("then", "then_some") and L.local_name(e["recv"]) == "hash"
+                e = tir.LetEnv(nb["tir"]["value"]).resolve(e)
+                hp = nb["tir"]["params"][1].get("name")
+                ok = e.get("k") == "MethodCall" and e["method"] in ("then", "then_some") and L.local_name(e["recv"]) == hp
+                bb = tir.bool_branch(e) if e.get("k") in ("If", "Match") else None
+                if bb is not None and bb[2] is not None and L.local_name(bb[0]) == hp:
+                    t_, f_ = L.strip_try(bb[1]), L.strip_try(bb[2])
+                    ok = (t_.get("k") == "Call" and (declared(t_) or "").endswith("::Some")) and (f_.get("k") == "Path" and (f_.get("path") or "").endswith("::None"))
     rep.ob("format.requested", ok, HR_NEW, "hasher", "a hasher must exist exactly when hashing was requested")
     db = F.body(HR_DIGEST)
     ok = False
@@ -251,8 +256,11 @@ def persistence_rule(F, G, rep):
     ok = False
     for n in tir.walk(rb["tir"]["value"]):
         if n.get("k") == "Struct" and (n.get("path") or "") == "game::immutable::Game":
-            f = {x["name"]: tir.place(x["e"]) for x in n["fields"]}
-            ok = f.get("hash") == "peppi.slp_hash" and f.get("quirks") == "peppi.quirks"
+            env = tir.LetEnv(rb["tir"]["value"])
+            f = {x["name"]: env.place(x["e"], peel=True) for x in n["fields"]}
+            # both come from the same deserialised peppi.json value (the slot, or a binding of it)
+            h, q = f.get("hash") or "", f.get("quirks") or ""
+            ok = h.endswith(".slp_hash") and q.endswith(".quirks") and h.rsplit(".", 1)[0] == q.rsplit(".", 1)[0] and "peppi" in h
     rep.ob("persist.read", ok, "io::peppi::de::read", "Game", "the .slpp reader must restore hash and quirks from peppi.json unchanged")
     # the peppi slot is the deserialised peppi.json value itself (no re-construction / re-formatting on the way)
     import peppifmt
